@@ -87,6 +87,9 @@ ARR = {
     "R_s_R_tT": ("$.variables.a,$.variables.b;yy", lambda x, y, s, t: {("SENTINEL", 0): s, ("SENTINEL", 1): t, ("TEXT", 0): y}, lambda x, y, s, t: "A" + s + "B" + t + y + " "),
     # reference, separator, white space, text
     "R_s_W_T": ("$.variables.a, yy", lambda x, y, s, t: {("SENTINEL", 0): s, ("TEXT", 0): y}, lambda x, y, s, t: "A" + s + " " + y + " "),
+    # the print string itself ends in a blank: after a reference, after text
+    "TR_": ("xx$.variables.a ", lambda x, y, s, t: {("TEXT", 0): x}, lambda x, y, s, t: x + "A" + "  "),
+    "T_": ("xx ", lambda x, y, s, t: {("TEXT", 0): x}, lambda x, y, s, t: x + "  "),
     # text, reference, separator, text, reference, separator at the end
     "TRsTRt": ("xx$.variables.a,yy$.variables.b;", lambda x, y, s, t: {("TEXT", 0): x, ("SENTINEL", 0): s, ("TEXT", 1): y, ("SENTINEL", 1): t}, lambda x, y, s, t: x + "A" + s + y + "B" + t + " "),
 }
@@ -117,6 +120,8 @@ TEXT_OF = {
     "R_s_R_tT": lambda x, y, s, t: "$.variables.a" + s + "$.variables.b" + t + y,
     "R_s_W_T": lambda x, y, s, t: "$.variables.a" + s + " " + y,
     "TRsTRt": lambda x, y, s, t: x + "$.variables.a" + s + y + "$.variables.b" + t,
+    "TR_": lambda x, y, s, t: x + "$.variables.a ",
+    "T_": lambda x, y, s, t: x + " ",
 }
 
 
@@ -216,7 +221,7 @@ def onmatch_once(named: bool, k: int) -> Tuple[List[str], int, int]:
 
 
 # ------------------------------------------------------------------ O4 every reference kind in a run
-KINDS_TEXT = 'print("v=$.variables.p, k=$.variables.d.k; i=$.variables.st.1! n=$.variables.st.length? h=$.headers.b, x=$.headers.1; m=$.metadata.note, l=$.csvpath.line_number; e")'
+KINDS_TEXT = 'print("v=$.variables.p, k=$.variables.d.k; i=$.variables.st.1! n=$.variables.st.length? h=$.headers.b, x=$.headers.1; m=$.metadata.note, l=$.csvpath.line_number; c=$.csvpath.count_lines; e")'
 
 
 CELLS = ["a!", "Z", "9-", "_"]
@@ -224,8 +229,9 @@ CELLS = ["a!", "Z", "9-", "_"]
 
 def kinds_oracle(v, w, c1, c2):
     out = []
-    for ln, cell in ((1, CELLS[c1]), (2, CELLS[c2])):
-        out.append("v=%s, k=%s; i=%s! n=2? h=%s, x=%s; m=hello, l=%d; e" % (v, w, w, cell, cell, ln))
+    # the file holds a blank record between the two data lines: physical lines 1 and 3
+    for ln, cell in ((1, CELLS[c1]), (3, CELLS[c2])):
+        out.append("v=%s, k=%s; i=%s! n=2? h=%s, x=%s; m=hello, l=%d; c=%d; e" % (v, w, w, cell, cell, ln, ln + 1))
     return out
 
 
@@ -235,7 +241,7 @@ def kinds_oracle(v, w, c1, c2):
     pre=["{VLO} <= v <= {VHI} and 0 <= w <= {VHI}", "0 <= c1 < 4 and 0 <= c2 < 4"],
     post="_ == kinds_oracle(v, w, c1, c2)",
     bound="one print string with every local reference kind ($.variables.x, .x.key, .stack.index, .stack.length, $.headers.name, "
-    "$.headers.index, $.metadata.key, $.csvpath.line_number) separated by literal text, executed on 2 data lines; variable values "
+    "$.headers.index, $.metadata.key, $.csvpath.line_number, $.csvpath.count_lines) separated by literal text, executed on 2 data lines with a blank record between them; variable values "
     "symbolic ints VLO..VHI, the referenced cell of each line picked by a symbolic index from 4 texts (symbolic cell strings cost 128 000 "
     "solver queries without finishing: measured, abandoned): every "
     "entry carries the values current on its line and every other character unchanged",
@@ -245,10 +251,10 @@ def kinds_oracle(v, w, c1, c2):
            "thorough": {"timeout": 3000, "K": {"VLO": -2, "VHI": 2}, "shards": product(c1=[0, 1, 2, 3])}},
 )
 def reference_kinds(v: int, w: int, c1: int, c2: int) -> List[str]:
-    p, pr = fresh('~ note: hello ~ $SYM[1*][ %s ]' % KINDS_TEXT, [["a", "b"], ["1", "x"], ["2", "y"]])
+    p, pr = fresh('~ note: hello ~ $SYM[1*][ %s ]' % KINDS_TEXT, [["a", "b"], ["1", "x"], [], ["2", "y"]])
     from vp.kit import StubReader
 
-    StubReader.RECORDS = [["a", "b"], ["1", CELLS[c1]], ["2", CELLS[c2]]]
+    StubReader.RECORDS = [["a", "b"], ["1", CELLS[c1]], [], ["2", CELLS[c2]]]
     p.variables["p"] = v
     p.variables["d"] = {"k": w}
     p.variables["st"] = [v, w]
